@@ -22,4 +22,8 @@ def run(ctx):
              "parameter (0 on the tree this was written for; the seeded variant C24-insertion-ranges-evaluated-once is the "
              "positive example of the thorough tier)" % kp)
     ctx.floor("R-MEMOKEY", "lazy caches in the suppression classes", k, 10)
+    # a suppressed node's children must not be seen by the redundancy pass (else their next, unsuppressed, occurrence is
+    # filtered as redundant: over-suppression)
+    from rules import C26
+    C26.check_redundskip(ctx)
     ctx.assume("insertion-range arithmetic (has_data_member_inserted_*) is evaluated on runtime offsets and is not decided")
